@@ -64,7 +64,14 @@ def _run_chunk(exe, lines, env, is_model, timeout):
             continue
         kind = "model-crash" if is_model else "crash"
         m = re.search(r"(ERROR: \w+Sanitizer: [^\n]*|runtime error: [^\n]*|SUMMARY: [^\n]*)", errtxt)
-        out.append(json.dumps({kind: (m.group(1) if m else ("rc=%s %s" % (rc, errtxt[-300:])))[:400]}))
+        fire = re.findall(r"HXFIRE entry=(\S+)", errtxt)
+        rec = {kind: (m.group(1) if m else ("rc=%s %s" % (rc, errtxt[-300:])))[:400]}
+        if fire:
+            rec["entry"] = fire[-1]     # the allocation fault that preceded the crash (C20)
+        fr = re.search(r"#\d+ 0x[0-9a-f]+ in (\w+) /repo/(\S+)", errtxt)
+        if fr:
+            rec["frame"] = "%s %s" % (fr.group(1), fr.group(2))
+        out.append(json.dumps(rec))
         i = len(out)
     return out
 
